@@ -49,33 +49,177 @@ pub fn build_mode() -> &'static str {
 ///   <bin> gen <seed> <count> <outfile> [corpusfile]   — corpus inputs first, then <count> generated cases
 ///   <bin> replay <input>                              — one case to stdout
 /// `run` maps an input line to the implementation's result string; `gen` produces one input line.
+///
+/// Cases are executed in child processes of this same binary (`<bin> child <infile> <from> <to> <out>`),
+/// several in parallel, so that an abort, a stack overflow, an out-of-memory kill or an endless loop of
+/// the implementation is observed and attributed to the one input that caused it
+/// (`input => abort:<how>` / `input => timeout:<seconds>`) instead of taking the whole run down.  The
+/// output file lists the cases in generation order whatever the scheduling was.
 pub fn harness_main(
     run: &dyn Fn(&str) -> String,
     gen: &mut dyn FnMut(&mut prng::Rng) -> String,
 ) {
-    use std::io::Write;
     std::panic::set_hook(Box::new(|_| {}));
+    harness_main_keep_hook(run, gen)
+}
+
+/// as `harness_main`, but leaves the panic hook the binary installed (C01 / C02 record the panic location)
+pub fn harness_main_keep_hook(
+    run: &dyn Fn(&str) -> String,
+    gen: &mut dyn FnMut(&mut prng::Rng) -> String,
+) {
+    use std::io::Write;
     let args: Vec<String> = std::env::args().collect();
-    if args.len() >= 5 && args[1] == "gen" {
+    if args.len() >= 6 && args[1] == "child" {
+        child_main(run, &args[2], args[3].parse().unwrap(), args[4].parse().unwrap(), &args[5]);
+    } else if args.len() >= 5 && args[1] == "gen" {
         let seed: u64 = args[2].parse().unwrap();
         let count: usize = args[3].parse().unwrap();
-        let mut out = std::io::BufWriter::new(std::fs::File::create(&args[4]).unwrap());
+        let mut inputs: Vec<String> = vec![];
         if let Some(corpus) = args.get(5) {
             if let Ok(txt) = std::fs::read_to_string(corpus) {
-                for line in txt.lines().filter(|l| !l.is_empty() && !l.starts_with('#')) {
-                    writeln!(out, "{} => {}", line, run(line)).unwrap();
-                }
+                inputs.extend(txt.lines().filter(|l| !l.is_empty() && !l.starts_with('#')).map(String::from));
             }
         }
         let mut rng = prng::Rng::new(seed);
         for _ in 0..count {
-            let input = gen(&mut rng);
-            writeln!(out, "{} => {}", input, run(&input)).unwrap();
+            inputs.push(gen(&mut rng));
+        }
+        let results = run_isolated(&inputs, &args[4]);
+        let mut out = std::io::BufWriter::new(std::fs::File::create(&args[4]).unwrap());
+        for (input, res) in inputs.iter().zip(results.iter()) {
+            writeln!(out, "{} => {}", input, res).unwrap();
         }
     } else if args.len() >= 3 && args[1] == "replay" {
-        println!("{} => {}", args[2], run(&args[2]));
+        let base = std::env::temp_dir().join(format!("avh-replay-{}", std::process::id()));
+        let inputs = vec![args[2].clone()];
+        let results = run_isolated(&inputs, base.to_str().unwrap());
+        println!("{} => {}", args[2], results[0]);
     } else {
         eprintln!("usage: {} gen <seed> <count> <outfile> [corpus] | replay <input>", args[0]);
         std::process::exit(2);
     }
+}
+
+/// seconds a single case may take before the child gives up on it (`timeout:`)
+fn case_timeout_s() -> u64 {
+    std::env::var("AVH_CASE_TIMEOUT").ok().and_then(|s| s.parse().ok()).unwrap_or(120)
+}
+
+const EXIT_TIMEOUT: i32 = 97;
+
+fn child_main(run: &dyn Fn(&str) -> String, infile: &str, from: usize, to: usize, outfile: &str) {
+    use std::io::Write;
+    use std::sync::atomic::{AtomicU64, Ordering};
+    unsafe {
+        // an allocation the input cannot justify fails (and aborts) instead of taking the machine down
+        let lim = libc::rlimit { rlim_cur: 8 << 30, rlim_max: 8 << 30 };
+        libc::setrlimit(libc::RLIMIT_AS, &lim);
+    }
+    static STARTED: AtomicU64 = AtomicU64::new(0); // ms since the child started, 0 = no case running
+    let t0 = std::time::Instant::now();
+    let limit = case_timeout_s() * 1000;
+    std::thread::spawn(move || loop {
+        std::thread::sleep(std::time::Duration::from_millis(250));
+        let s = STARTED.load(Ordering::Relaxed);
+        if s != 0 && (t0.elapsed().as_millis() as u64).saturating_sub(s) > limit {
+            std::process::exit(EXIT_TIMEOUT);
+        }
+    });
+    let txt = std::fs::read_to_string(infile).unwrap_or_default();
+    let mut out = std::fs::OpenOptions::new().append(true).create(true).open(outfile).unwrap();
+    for line in txt.lines().skip(from).take(to - from) {
+        STARTED.store(t0.elapsed().as_millis() as u64 + 1, Ordering::Relaxed);
+        let res = run(line);
+        STARTED.store(0, Ordering::Relaxed);
+        // one line per case; a result never contains a line break
+        writeln!(out, "{}", res.replace('\n', " ")).unwrap();
+        out.flush().unwrap();
+    }
+}
+
+/// run every input in child processes; the result for input i is at index i
+fn run_isolated(inputs: &[String], base: &str) -> Vec<String> {
+    use std::io::Write;
+    use std::sync::{Arc, Mutex};
+    let infile = format!("{}.in", base);
+    {
+        let mut f = std::io::BufWriter::new(std::fs::File::create(&infile).unwrap());
+        for i in inputs {
+            writeln!(f, "{}", i).unwrap();
+        }
+    }
+    let n = inputs.len();
+    let workers = std::thread::available_parallelism().map(|n| n.get()).unwrap_or(4).min(16).max(1);
+    let chunk = ((n + workers * 8 - 1) / (workers * 8)).max(1).min(500);
+    let mut ranges: Vec<(usize, usize)> = vec![];
+    let mut a = 0;
+    while a < n {
+        ranges.push((a, (a + chunk).min(n)));
+        a += chunk;
+    }
+    ranges.reverse();
+    let queue = Arc::new(Mutex::new(ranges));
+    let results = Arc::new(Mutex::new(vec![String::new(); n]));
+    let exe = std::env::current_exe().unwrap();
+    let mut handles = vec![];
+    for w in 0..workers.min(n.max(1)) {
+        let (queue, results, exe, infile) = (queue.clone(), results.clone(), exe.clone(), infile.clone());
+        let part = format!("{}.part{}", base, w);
+        handles.push(std::thread::spawn(move || loop {
+            let (mut from, to) = match queue.lock().unwrap().pop() {
+                Some(r) => r,
+                None => break,
+            };
+            while from < to {
+                let _ = std::fs::remove_file(&part);
+                let status = std::process::Command::new(&exe)
+                    .arg("child")
+                    .arg(&infile)
+                    .arg(from.to_string())
+                    .arg(to.to_string())
+                    .arg(&part)
+                    .stderr(std::process::Stdio::null())
+                    .stdout(std::process::Stdio::null())
+                    .status();
+                let txt = std::fs::read_to_string(&part).unwrap_or_default();
+                // only complete lines count
+                let complete: Vec<&str> = if txt.ends_with('\n') { txt.lines().collect() } else {
+                    let mut v: Vec<&str> = txt.lines().collect();
+                    v.pop();
+                    v
+                };
+                let done = complete.len().min(to - from);
+                {
+                    let mut res = results.lock().unwrap();
+                    for (k, l) in complete.iter().take(done).enumerate() {
+                        res[from + k] = l.to_string();
+                    }
+                    if from + done < to {
+                        // the case after the last completed one killed the child
+                        let how = match &status {
+                            Ok(s) => match s.code() {
+                                Some(EXIT_TIMEOUT) => format!("timeout:{}", case_timeout_s()),
+                                Some(c) => format!("abort:exit{}", c),
+                                None => {
+                                    use std::os::unix::process::ExitStatusExt;
+                                    format!("abort:signal{}", s.signal().unwrap_or(0))
+                                }
+                            },
+                            Err(_) => "abort:spawn".to_string(),
+                        };
+                        res[from + done] = how;
+                    }
+                }
+                from += done + 1;
+            }
+            let _ = std::fs::remove_file(&part);
+        }));
+    }
+    for h in handles {
+        h.join().unwrap();
+    }
+    let _ = std::fs::remove_file(&infile);
+    let r = results.lock().unwrap().clone();
+    r
 }
